@@ -263,7 +263,7 @@ func c13Check(c *run.Ctx, id string, data []byte, gname string) (out c13Outcome,
 		c.Count("unknown_step_fallbacks_seen", unknowns)
 	}
 	// marshalling a usable result succeeds
-	jb, jerr := json.Marshal(p)
+	jb, jerr := safeJSONMarshal(p)
 	var jn *doc.Node
 	if jerr != nil {
 		nonFinite := plain != nil && hasNonFinite(plain)
@@ -279,7 +279,7 @@ func c13Check(c *run.Ctx, id string, data []byte, gname string) (out c13Outcome,
 		jn, _ = doc.FromJSON(jb)
 		c.Count("json_marshal_ok", 1)
 	}
-	if _, yerr := yaml.Marshal(p); yerr != nil {
+	if _, yerr := safeYAMLMarshal(p); yerr != nil {
 		lead := (jn != nil && leadingWSMultiline(jn)) || (jn == nil && plain != nil && leadingWSMultiline(plain))
 		if lead && c.Listed("K5") {
 			c.KnownHit("K5")
@@ -504,11 +504,11 @@ func checkC13(c *run.Ctx) {
 			fails = !isCmd
 			what = fmt.Sprintf("step parsed as %T", p.Steps[0])
 		case w.Leg == "yaml":
-			_, err := yaml.Marshal(p)
+			_, err := safeYAMLMarshal(p)
 			fails = err != nil
 			what = fmt.Sprintf("yaml.Marshal error: %v", err)
 		default:
-			_, err := json.Marshal(p)
+			_, err := safeJSONMarshal(p)
 			fails = err != nil
 			what = fmt.Sprintf("json.Marshal error: %v", err)
 		}
